@@ -20,3 +20,12 @@ Theorem c13_source_untouched : forall e, known_env e -> e_owning e = false ->
               iv_total (dropped_all (c_trace (final_step e (exec e (init progs) sched) t f))) = 0.
 Proof. exact source_untouched. Qed.
 Print Assumptions c13_source_untouched.
+
+(** every kind, the wrapper over an iterator of references included: a borrowed source is never touched
+    (no hypothesis on the run at all) *)
+From OCI.proofs Require Import Borrowed.
+Theorem c13_borrowed_source_untouched : forall e, e_owning e = false -> forall progs sched,
+  dropped_all (c_trace (exec e (init progs) sched)) = [] /\
+  forall t f, dropped_all (c_trace (final_step e (exec e (init progs) sched) t f)) = [].
+Proof. exact borrowed_source_untouched. Qed.
+Print Assumptions c13_borrowed_source_untouched.
